@@ -83,4 +83,8 @@ CompleteAtEnd == pos = S.len => delivered = Expected(S) /\ (Len(ExpectedNotifs(S
 ReaderSurvives == alive
 \* at every moment: exactly the well-formed lines terminated so far, whatever the cuts
 ChunkIndependent == alive => delivered = Keep(LinesIn(S, 1, 0, pos), S.wf)
+
+\* the stdio read path implements Pipe: sent = the child's well-formed lines, delivered = the read stream
+PipeOfStdio == INSTANCE Pipe WITH sent <- Expected(S), delivered <- delivered
+ImplementsPipe == PipeOfStdio!Spec
 =============================================================================
